@@ -83,7 +83,21 @@ def runMulti (items : List Sexp) : Option String := do
   let doms ← Sexp.field? items "doms"
   let subs := (Sexp.field? items "sub").getD []
   let qs ← Sexp.field? items "queries"
-  let parsed ← qs.mapM fun s => match s with
+  -- `(graph n0 n1 …)` (s6a): the variables range over the instances that EXIST at the time of an evaluation — at the
+  -- j-th evaluation the objects with index < n_j (instances are created between evaluations, in index order)
+  let graph ← match Sexp.field? items "graph" with
+    | none => some none
+    | some l => (l.mapM Sexp.asNat?).map some
+  let domsAt := fun (j : Nat) => match graph with
+    | none => doms
+    | some g =>
+      let n := g.getD j 0
+      doms.map fun d => match d with
+        | .list (v :: xs) => .list (v :: xs.filter fun x => match x with
+            | .list [.atom "obj", i] => decide ((i.asNat?).getD 0 < n)
+            | _ => true)
+        | d => d
+  let evalAt := fun (doms : List Sexp) (s : Sexp) => match s with
     | .list (.atom "qq" :: parts) => do
       let (w, q) ← parseCase (.list (.atom "q" :: (parts ++ [.list (.atom "objs" :: objs), .list (.atom "doms" :: doms), .list (.atom "sub" :: subs)])))
       pure (evalQuery w q.toQuery)
@@ -94,13 +108,16 @@ def runMulti (items : List Sexp) : Option String := do
       let w : World := { objs := ← objs.mapM parseObj, doms := ← doms.mapM parseDom }
       pure (evalQueryX w sel (buildX c))
     | _ => none
-  let outs := order.map fun (qi, k) =>
-    match parsed[qi]? with
+  -- every query must parse (on the full domains)
+  let _ ← qs.mapM (evalAt doms)
+  let outs := (List.range order.length).zip order |>.map fun (j, (qi, k)) =>
+    match qs[qi]? with
     | none => "bad-query-index"
-    | some res =>
-      match res with
-      | .error e => errName e
-      | .ok rows =>
+    | some s =>
+      match evalAt (domsAt j) s with
+      | none => "bad-query"
+      | some (.error e) => errName e
+      | some (.ok rows) =>
         let rows := if k < 0 then rows else rows.take k.toNat
         "[" ++ " ".intercalate (rows.map showRow) ++ "]"
   let out := " ; ".intercalate outs
